@@ -503,6 +503,14 @@ func checkC20(c *Check) {
 	// R20.8 client typestate
 	ruleClientTypestate(c, p, handler, "Writer", "compress")
 	ruleFramesFinished(c, p, handler)
+	ruleWholeInputCopied(c, p, handler, "Writer", "compress")
+	ruleNamesUnchanged(c, p, handler, "compress")
+	if uh0 := handlerOf(unc); uh0 != nil {
+		ruleWholeInputCopied(c, p, uh0, "Reader", "uncompress")
+		ruleNamesUnchanged(c, p, uh0, "uncompress")
+	}
+	c.RuleDoc["R20.13"] = "data moves into the Writer / out of the Reader only through io.Copy (to the end of the source)"
+	c.RuleDoc["R20.14"] = "the file opened is the file named on the command line (plus or minus the extension)"
 	c.RuleDoc["R20.12"] = "every frame lz4c starts is finished: Close before the Writer is re-targeted and before success is reported"
 	if uh != nil {
 		ruleClientTypestate(c, p, uh, "Reader", "uncompress")
@@ -1206,4 +1214,248 @@ func ruleFramesFinished(c *Check, p *Program, h *ssa.Function) {
 		all = append(all, p.InstrPos(k)+": "+bad[k])
 	}
 	c.Fail("R20.12", "lz4c.compress#frames-finished", p.InstrPos(keys[0]), "every frame started by io.Copy into the Writer is closed before the Writer is re-targeted and before the handler reports success", strings.Join(all, " | "))
+}
+
+// lz4cFamily: the handler, its function literals and the functions of package main it reaches.
+func lz4cFamily(h *ssa.Function) []*ssa.Function {
+	seen := map[*ssa.Function]bool{h: true}
+	out := []*ssa.Function{h}
+	for i := 0; i < len(out) && i < 60; i++ {
+		g := out[i]
+		for _, a := range g.AnonFuncs {
+			if !seen[a] {
+				seen[a] = true
+				out = append(out, a)
+			}
+		}
+		for _, ci := range callsIn(g) {
+			if f := staticCallee(ci); f != nil && f.Pkg == h.Pkg && len(f.Blocks) > 0 && !seen[f] {
+				seen[f] = true
+				out = append(out, f)
+			}
+		}
+	}
+	return out
+}
+
+// R20.13: the whole input goes through the codec. Every call that moves data
+// into the Writer or out of the Reader is io.Copy (which reads to the end of
+// its source); a copy bounded by a number obtained elsewhere (the size reported
+// by Stat, say) drops what the number does not cover - pipes, /proc files and
+// files still being written report less than they deliver.
+func ruleWholeInputCopied(c *Check, p *Program, h *ssa.Function, typ, cmd string) {
+	isObj := func(v ssa.Value) bool {
+		for i := 0; i < 4; i++ {
+			switch x := v.(type) {
+			case *ssa.MakeInterface:
+				v = x.X
+				continue
+			case *ssa.ChangeInterface:
+				v = x.X
+				continue
+			}
+			break
+		}
+		return strings.HasSuffix(v.Type().String(), "lz4/v4."+typ)
+	}
+	n := 0
+	bad := ""
+	for _, g := range lz4cFamily(h) {
+		for _, ci := range callsIn(g) {
+			f := staticCallee(ci)
+			if f == nil || f.Pkg == nil || f.Pkg == h.Pkg || isLz4(f, typ+"."+f.Name()) {
+				continue // helpers of the command are walked themselves; methods of the object are not data movers
+			}
+			uses := false
+			for _, a := range ci.Common().Args {
+				if isObj(a) {
+					uses = true
+				}
+			}
+			if !uses {
+				continue
+			}
+			n++
+			c.Sites++
+			if !calleeIs(ci, "io", "Copy") && bad == "" {
+				bad = p.InstrPos(ci) + " (" + f.Pkg.Pkg.Path() + "." + f.Name() + ")"
+			}
+		}
+	}
+	if n == 0 {
+		c.Fail("R20.13", "lz4c."+cmd+"#whole-input-copied", p.Pos(h.Pos()), "the data movers of the "+cmd+" handler are resolved", "no call that is handed the "+typ+" found (anchor unresolved)")
+		return
+	}
+	c.Cond(bad == "", "R20.13", "lz4c."+cmd+"#whole-input-copied", p.Pos(h.Pos()), "data moves into the Writer / out of the Reader only through io.Copy, i.e. to the end of the source", fmt.Sprintf("%d data-moving call(s), all io.Copy", n), "the call at "+bad+" moves a bounded or otherwise filtered amount: what the bound does not cover is silently left out of the output")
+}
+
+// R20.14: the file that is opened is the file that was named. The name handed
+// to os.Open / os.OpenFile / os.Create derives from the handler's argument
+// list only through selection of an element, fmt.Sprintf and
+// strings.TrimSuffix (the extension is appended or removed), or string
+// concatenation - never through a function that may substitute another name
+// (pattern expansion, cleaning, lookup).
+func ruleNamesUnchanged(c *Check, p *Program, h *ssa.Function, cmd string) {
+	fam := lz4cFamily(h)
+	inFam := map[*ssa.Function]bool{}
+	for _, g := range fam {
+		inFam[g] = true
+	}
+	var okName func(v ssa.Value, depth int) (bool, string)
+	okName = func(v ssa.Value, depth int) (bool, string) {
+		if depth > 14 {
+			return false, "derivation too deep"
+		}
+		switch x := v.(type) {
+		case *ssa.Const:
+			return true, ""
+		case *ssa.Global:
+			return true, ""
+		case *ssa.Parameter:
+			g := x.Parent()
+			if g == h {
+				return true, ""
+			}
+			if srcs := capturedSources(x); len(srcs) > 0 {
+				_ = srcs
+			}
+			idx := -1
+			for i, pr := range g.Params {
+				if pr == x {
+					idx = i
+				}
+			}
+			nSites := 0
+			for _, cand := range fam {
+				for _, ci := range callsIn(cand) {
+					if staticCallee(ci) == g && idx >= 0 && idx < len(ci.Common().Args) {
+						nSites++
+						if ok, why := okName(ci.Common().Args[idx], depth+1); !ok {
+							return false, why
+						}
+					}
+				}
+			}
+			if nSites == 0 {
+				return false, "parameter " + x.Name() + " of " + shortFn(g) + " has no resolved call site"
+			}
+			return true, ""
+		case *ssa.MakeInterface:
+			return okName(x.X, depth+1)
+		case *ssa.ChangeType:
+			return okName(x.X, depth+1)
+		case *ssa.Convert:
+			return okName(x.X, depth+1)
+		case *ssa.Slice:
+			return okName(x.X, depth+1)
+		case *ssa.IndexAddr:
+			return okName(x.X, depth+1)
+		case *ssa.Phi:
+			for _, e := range x.Edges {
+				if e == ssa.Value(x) {
+					continue
+				}
+				if ok, why := okName(e, depth+1); !ok {
+					return false, why
+				}
+			}
+			return true, ""
+		case *ssa.BinOp:
+			if x.Op == token.ADD {
+				if ok, why := okName(x.X, depth+1); !ok {
+					return false, why
+				}
+				return okName(x.Y, depth+1)
+			}
+		case *ssa.Alloc:
+			// a local array or variable: everything stored into it
+			for _, r := range *x.Referrers() {
+				switch y := r.(type) {
+				case *ssa.Store:
+					if y.Addr == ssa.Value(x) {
+						if ok, why := okName(y.Val, depth+1); !ok {
+							return false, why
+						}
+					}
+				case *ssa.IndexAddr:
+					for _, rr := range *y.Referrers() {
+						if st, isS := rr.(*ssa.Store); isS && st.Addr == ssa.Value(y) {
+							if ok, why := okName(st.Val, depth+1); !ok {
+								return false, why
+							}
+						}
+					}
+				}
+			}
+			return true, ""
+		case *ssa.UnOp:
+			if x.Op == token.MUL {
+				if srcs := capturedSources(x); len(srcs) > 0 {
+					for _, sv := range srcs {
+						if ok, why := okName(sv, depth+1); !ok {
+							return false, why
+						}
+					}
+					return true, ""
+				}
+				return okName(x.X, depth+1)
+			}
+		case *ssa.Extract:
+			return okName(x.Tuple, depth+1)
+		case *ssa.Next:
+			return okName(x.Iter, depth+1)
+		case *ssa.Range:
+			return okName(x.X, depth+1)
+		case *ssa.Call:
+			f := staticCallee(x)
+			if f != nil && f.Pkg != nil {
+				pp := f.Pkg.Pkg.Path()
+				if (pp == "fmt" && f.Name() == "Sprintf") || (pp == "strings" && f.Name() == "TrimSuffix") {
+					for _, a := range x.Call.Args {
+						if ok, why := okName(a, depth+1); !ok {
+							return false, why
+						}
+					}
+					return true, ""
+				}
+				if inFam[f] {
+					// a helper of the command that returns a name: its results
+					var why string
+					ok := true
+					allInstrs(f, func(in ssa.Instruction) {
+						if r, isR := in.(*ssa.Return); isR {
+							for _, res := range r.Results {
+								if bt, isB := res.Type().Underlying().(*types.Basic); isB && bt.Kind() == types.String {
+									if o, w := okName(res, depth+1); !o {
+										ok, why = false, w
+									}
+								}
+							}
+						}
+					})
+					return ok, why
+				}
+				return false, "the name passes through " + pp + "." + f.Name()
+			}
+			if bi, isB := x.Call.Value.(*ssa.Builtin); isB {
+				return false, "the name passes through the builtin " + bi.Name() + " (a list built at run time)"
+			}
+		}
+		return false, "the name derives from " + shortVal(v)
+	}
+	n := 0
+	for _, g := range fam {
+		for _, ci := range callsIn(g) {
+			if !(calleeIs(ci, "os", "Open") || calleeIs(ci, "os", "OpenFile") || calleeIs(ci, "os", "Create")) {
+				continue
+			}
+			n++
+			c.Sites++
+			ok, why := okName(ci.Common().Args[0], 0)
+			c.Cond(ok, "R20.14", fmt.Sprintf("lz4c.%s#name-as-given#%d", cmd, n), p.InstrPos(ci), "the name opened derives from the argument list only by selecting an element and adding or removing the extension", "argument element, fmt.Sprintf / strings.TrimSuffix of it", why+": a name that contains pattern or path syntax is replaced by another file's name, which is then read or overwritten instead")
+		}
+	}
+	if n < 2 {
+		c.Fail("R20.14", "lz4c."+cmd+"#open-sites", p.Pos(h.Pos()), "the input and output files of the "+cmd+" handler are opened in it", fmt.Sprintf("only %d os.Open/OpenFile/Create call(s) found", n))
+	}
 }
